@@ -1,26 +1,29 @@
 (* C15 -- Verify-only reports exactly the differences and is read-only.
-   Full statement refuted twice by the faithful model (known findings C15-KF1: --mode fast never compares
-   content; C15-KF2: a source directory vs a destination file of the same name is not reported). *)
+   The model follows the repaired code (`fix: --verify-only compares file contents in every verification mode`,
+   `fix: --verify-only reports a file/directory type conflict instead of missing it`); on the pinned commit --mode fast
+   never compared content and a source directory vs a destination file of the same name was not reported (recorded as
+   fixed in known_findings.json). *)
 From Coq Require Import NArith ZArith List Bool Lia.
 From SyModel Require Import Engine Verify.
 From SyProofs Require Import Verify_proofs.
 Import ListNotations.
 
-(* content-comparing modes, no type conflicts: exit 0 iff both trees hold the same files with identical contents *)
-Theorem C15_exit0_iff_same : forall src dst,
-  trees_wf src dst -> (verify_exit (verify CkContent None None src dst) = 0%Z <-> same_files src dst).
+(* every verification mode, any pair of trees (type conflicts included): exit 0 iff both trees hold the same files with
+   identical contents *)
+Theorem C15_exit0_iff_same : forall m src dst,
+  trees_wf src dst -> (verify_exit (verify m None None src dst) = 0%Z <-> same_files src dst).
 Proof. exact verify_exit0_iff. Qed.
 Print Assumptions C15_exit0_iff_same.
 
-(* the lists of source-only, destination-only and mismatched paths are exactly the true sets *)
+(* the lists of source-only, destination-only and mismatched paths are exactly the true sets, in every mode *)
 Theorem C15_lists_exact : forall m mn mx src dst p,
   (In p (vr_only_src (verify m mn mx src dst)) <->
      exists e, In e src /\ v_path e = p /\ v_is_dir e = false /\ size_filtered mn mx (v_size e) = false /\ lookup dst p = None) /\
   (In p (vr_only_dst (verify m mn mx src dst)) <->
-     exists d, In d dst /\ v_path d = p /\ v_is_dir d = false /\ forall e, In e src -> v_path e <> p) /\
-  (In p (vr_mismatched (verify CkContent mn mx src dst)) <->
+     exists d, In d dst /\ v_path d = p /\ v_is_dir d = false /\ forall e, In e src -> v_path e = p -> v_is_dir e = true) /\
+  (In p (vr_mismatched (verify m mn mx src dst)) <->
      exists e d, In e src /\ v_path e = p /\ v_is_dir e = false /\ size_filtered mn mx (v_size e) = false /\ lookup dst p = Some d /\
-                 v_is_dir d = false /\ (v_content e <> v_content d \/ v_size e <> v_size d)).
+                 (v_is_dir d = true \/ v_content e <> v_content d \/ v_size e <> v_size d)).
 Proof. exact verify_lists_exact. Qed.
 Print Assumptions C15_lists_exact.
 
@@ -33,26 +36,18 @@ Proof.
 Qed.
 Print Assumptions C15_exit_codes.
 
-(* Known finding C15-KF1: --mode fast (ChecksumType::None) declares different files equal *)
-Theorem C15_refuted_fast_mode :
-  exists src dst, trees_wf src dst /\ ~ same_files src dst /\ verify_exit (verify CkNone None None src dst) = 0%Z.
-Proof.
-  exists [mk_ventry [1%N] false 3 7], [mk_ventry [1%N] false 3 8]. split; [|split].
-  - split; [repeat constructor; cbn; tauto|]. split; [repeat constructor; cbn; tauto|]. intros s d [<-|[]] [<-|[]] _. reflexivity.
-  - intros [H _]. destruct (H _ (or_introl eq_refl) eq_refl) as (d & [<-|[]] & _ & _ & Hc & _). cbn in Hc. discriminate.
-  - vm_compute. reflexivity.
-Qed.
-Print Assumptions C15_refuted_fast_mode.
+(* the comparison itself never produces a read error (exit 2 is left to files that cannot be opened) *)
+Theorem C15_no_spurious_errors : forall m mn mx src dst, vr_errors (verify m mn mx src dst) = [].
+Proof. exact verify_no_errors. Qed.
+Print Assumptions C15_no_spurious_errors.
 
-(* Known finding C15-KF2: source directory x, destination file x: nothing is reported *)
-Theorem C15_refuted_type_conflict :
-  exists src dst, ~ same_files src dst /\ verify_exit (verify CkContent None None src dst) = 0%Z.
-Proof.
-  exists [mk_ventry [1%N] true 0 0], [mk_ventry [1%N] false 3 8]. split.
-  - intros [_ H]. destruct (H _ (or_introl eq_refl) eq_refl) as (s & [<-|[]] & _ & Hd). cbn in Hd. discriminate.
-  - vm_compute. reflexivity.
-Qed.
-Print Assumptions C15_refuted_type_conflict.
+(* the two shapes that went unreported on the pinned commit *)
+Example ex_fast_mode_detects : verify_exit (verify CkNone None None [mk_ventry [1%N] false 3 7] [mk_ventry [1%N] false 3 8]) = 1%Z.
+Proof. vm_compute. reflexivity. Qed.
+Example ex_type_conflicts :
+  let r := verify CkContent None None [mk_ventry [1%N] true 0 0; mk_ventry [2%N] false 1 5] [mk_ventry [1%N] false 3 8; mk_ventry [2%N] true 0 0] in
+  vr_only_dst r = [[1%N]] /\ vr_mismatched r = [[2%N]] /\ verify_exit r = 1%Z.
+Proof. vm_compute. repeat split. Qed.
 
 Example ex_verify :
   let src := [mk_ventry [1%N] true 0 0; mk_ventry [1%N; 2%N] false 3 7; mk_ventry [3%N] false 4 9; mk_ventry [4%N] false 1 1] in
